@@ -69,6 +69,19 @@ Theorem C19_after_is_calls : forall l (d : dir),
   after d l = last (map (fun r => snd (fst r)) (calls d l)) d.
 Proof. exact calls_after. Qed.
 
+(* whatever the source does -- even a dishonest one -- the final path is never TORN at any
+   crash point: both functions follow the rename discipline of Common/AtomFS.v
+   (tmp_then_rename_atomic) *)
+Theorem C19_download_never_torn : forall path (d : dir) (src : source Blk) m,
+  no_torn_final streqb (is_final path) d ->
+  no_torn_final streqb (is_final path) (applys19 d (firstn m (fst (download d path src)))).
+Proof. exact download_never_tears. Qed.
+
+Theorem C19_decompress_never_torn : forall dpath (d : dir) (z : zsource Blk) m,
+  no_torn_final streqb (is_final dpath) d ->
+  no_torn_final streqb (is_final dpath) (applys19 d (firstn m (fst (decompress d dpath z)))).
+Proof. exact decompress_never_tears. Qed.
+
 End C19.
 
 (* the translated block count: (length + block_size - 1) // block_size reads of block_size
@@ -97,4 +110,6 @@ Print Assumptions C19_decompress_final_absent_or_complete.
 Print Assumptions C19_decompress_retry_repairs.
 Print Assumptions C19_decompress_cache_reused.
 Print Assumptions C19_after_is_calls.
+Print Assumptions C19_download_never_torn.
+Print Assumptions C19_decompress_never_torn.
 Print Assumptions C19_block_count.
